@@ -6,6 +6,8 @@ JOBS = [
     Job('dns.complete', 'C15/dns.cpp', 'h_dns_complete', 'B', reach=['dns_complete'], timeout=1700, clause='lookup completion: reply / foreign reply / tick / cancel in every order of 4 steps'),
     Job('timeout.monitor', 'C14/proto.cpp', 'h_timeout_monitor', 'B', reach=['timeout_monitor'], timeout=900, clause='timeout monitor (shared with C14): every value completes exactly once, also with retries from inside the callback'),
 ]
+JOBS.append(Job('dns.rcode', 'C15/dns.cpp', 'h_dns_rcode', 'B', reach=['dns_rcode'], timeout=900, clause='two servers, first reply carries any response code 1..15, second reply good or another error code: documented status for every code, never success without data'))
+JOBS.append(Job('udp.recv', 'C15/udp.cpp', 'h_udp_recv', 'B', reach=['udp_recv'], timeout=900, clause='UdpSocket receive path with a kernel seam: datagram sizes 0, 1, 100, 4095, 4096, 4097, 5633, 65507: the callback gets exactly the bytes received into the buffer, never a length beyond it'))
 META = dict(
     explanation='Path-wise symbolic execution (engine/symir.py, z3) of the real network/dns_request.cpp with util::Deserializer/Serializer, std::map and eventx::TimeoutMonitor, on a link seam for network::UdpSocket and a fake loop/timer. '
                 'Datagrams: fully symbolic packets; a reply template (header, question, one answer) with symbolic answer count, compression pointer, record type/rdlength, first label length, truncated at every offset; a packet whose label length octet takes all 256 values in front of 200 data bytes. '
